@@ -15,11 +15,14 @@ Definition s_colon : str := [58%N].
 Definition s_braces : str := bytes "{}".
 Definition s_brackets : str := bytes "[]".
 
-(* headerToS: sorted keys, FIRST value of each only *)
+(* headerToS: sorted keys, one item k:[v] per value (since fix F6-multi-valued every value is kept) *)
+Definition header_item (k v : str) : str := k ++ [58%N; 91%N] ++ v ++ [93%N].
+Definition header_items (h : hdrs) : list str :=
+  flat_map (fun kv => map (header_item (fst kv)) (snd kv)) (sort_hdrs h).
 Definition header_to_s (h : hdrs) : str :=
   match h with
   | [] => s_braces
-  | _ => [123%N] ++ join (map (fun kv => fst kv ++ [58%N; 91%N] ++ hget h (fst kv) ++ [93%N]) (sort_hdrs h)) [44%N] ++ [125%N]
+  | _ => [123%N] ++ join (header_items h) [44%N] ++ [125%N]
   end.
 
 Definition encode_meta (m : meta) : str :=
@@ -35,7 +38,7 @@ Fixpoint s_to_header_parts (parts : list str) (i n : nat) (h : hdrs) : option hd
     let p' := if Nat.eqb i 0 then p
               else if Nat.eqb i (n - 1) then firstn (length p - 1) p else p in
     match split2 p' s_colon with
-    | [k; v] => s_to_header_parts rest (S i) n (hset h k (trim v s_brackets))
+    | [k; v] => s_to_header_parts rest (S i) n (hadd h k (trim v s_brackets))
     | _ => None
     end
   end.
